@@ -14,7 +14,7 @@ Import ListNotations.
    readable (PriQueue; false for the condition-variable queues) *)
 Record stress := { s_rounds : Z; s_consumers : nat; s_outstanding : nat; s_parked : nat; s_token : bool }.
 
-(* what the models admit at such a point (c13_quiescent_parked_means_open_empty, c13_pri_no_lost_wakeup): an item is
+(* what the models allow at such a point (c13_quiescent_parked_means_open_empty, c13_pri_no_lost_wakeup): an item is
    outstanding only if some consumer is not parked, or the token is readable *)
 Definition stress_ok (o : stress) : bool :=
   Nat.eqb (s_outstanding o) 0 || s_token o || Nat.ltb (s_parked o) (s_consumers o).
